@@ -106,6 +106,33 @@ type side struct {
 	addr         *net.UDPAddr
 	written      []byte
 	got          []byte
+	stream       bool  // SetStreamMode of this side (as a writer)
+	wends        []int // offsets in written at which a buffer handed to WriteBuffers ended
+}
+
+// noteWritten records the accepted buffers of one WriteBuffers call and where each ended.
+func (x *side) noteWritten(v [][]byte) {
+	for i := range v {
+		x.written = append(x.written, v[i]...)
+		x.wends = append(x.wends, len(x.written))
+	}
+}
+
+// boundaryOracle (C01, message mode): a Read returns bytes of ONE message, and a message never spans
+// two buffers given to WriteBuffers — so the n bytes just read, which end at offset len(x.got) of the
+// peer's accepted bytes, must not reach across the end of a written buffer.
+func (w *world) boundaryOracle(x *side, n int) {
+	p := w.peer(x)
+	if p.stream || n <= 0 {
+		return
+	}
+	lo, hi := len(x.got)-n, len(x.got)
+	for _, e := range p.wends {
+		if lo < e && e < hi {
+			w.viol("sess-msg-boundary", fmt.Sprintf("message mode: one Read of %s returned bytes [%d,%d) of what %s wrote, across the end of a written buffer at offset %d (a message was merged with its successor)", x.name, lo, hi, p.name, e))
+			return
+		}
+	}
 }
 
 type world struct {
@@ -295,9 +322,7 @@ func (w *world) write(x *side, v [][]byte) {
 		if r.err != nil || r.n != total {
 			w.viol("write-result", fmt.Sprintf("%s Write returned n=%d err=%v for %d bytes", x.name, r.n, r.err, total))
 		} else {
-			for i := range v {
-				x.written = append(x.written, v[i]...)
-			}
+			x.noteWritten(v)
 		}
 		x.s.SetWriteDeadline(time.Time{})
 		synctest.Wait()
@@ -360,6 +385,7 @@ func (w *world) read(x *side, blen int) {
 		if !bytes.HasPrefix(p.written, x.got) {
 			w.viol("sess-stream-not-prefix", fmt.Sprintf("%s has read %d bytes that are not a prefix of the %d bytes %s wrote", x.name, len(x.got), len(p.written), p.name))
 		}
+		w.boundaryOracle(x, r.n)
 	default:
 		if w.leaveBlocked && w.g.Chance(60) {
 			x.pendR = &pendingCall{done: done, buf: buf}
@@ -431,6 +457,7 @@ func (w *world) checkPending(x *side, op string) {
 				if !bytes.HasPrefix(w.peer(x).written, x.got) {
 					w.viol("sess-stream-not-prefix", fmt.Sprintf("%s has read %d bytes that are not a prefix of what %s wrote", x.name, len(x.got), w.peer(x).name))
 				}
+				w.boundaryOracle(x, r.n)
 			}
 			w.o.Count("pending-read:woken")
 		default:
@@ -449,9 +476,7 @@ func (w *world) checkPending(x *side, op string) {
 			if r.err != nil {
 				w.viol("write-result", fmt.Sprintf("%s pending Write returned err=%v", x.name, r.err))
 			} else {
-				for i := range p.v {
-					x.written = append(x.written, p.v[i]...)
-				}
+				x.noteWritten(p.v)
 			}
 			w.settle(x)
 			w.o.Count("pending-write:woken")
@@ -500,9 +525,7 @@ func (w *world) cancelWrite(x *side) {
 	select {
 	case r := <-x.pendW.done:
 		if r.err == nil { // it went through in the meantime
-			for i := range x.pendW.v {
-				x.written = append(x.written, x.pendW.v[i]...)
-			}
+			x.noteWritten(x.pendW.v)
 		}
 	default:
 		w.viol("write-stuck", x.name+" blocked Write did not return on a past deadline")
@@ -574,6 +597,7 @@ func (w *world) history(cipher string, fec [2]int) {
 			x.s.SetWriteDelay(wd)
 			x.s.SetACKNoDelay(nd)
 			x.s.SetStreamMode(st)
+			x.stream = st
 			return "ok"
 		})
 		if g.Chance(80) {
